@@ -47,7 +47,7 @@ CHECKS = {
    note="Trusted: pglex follows scan.l with standard_conforming_strings=on plus pgx's @name syntax; harness SQL is located syntactically by *_harness( calls.",
    technique="bounded exhaustive enumeration of hostile values x positions with a lexer-level differential oracle against a benign twin",
    design_ref="4/C04, 10.5"),
- "C05": dict(level="model_checking", engine="E3 enum + E1 sched",
+ "C05": dict(level="exploration", engine="E3 enum + E1 sched",
    text="(1) Totality and purity: every enumerated / corpus query (7.9k quick, 231k thorough) x parameter-symbol collisions x 12 parameter-map variants is translated under recover with "
         "a pointer-aware structural fingerprint of (AST, parameter map) before and after. (2) Determinism: every query translated three times; the 40 shortest structurally distinct "
         "queries in all ordered pairs against results from fresh processes (history independence). (3) Every interleaving of two and three concurrent translations sharing one kind mapper "
